@@ -16,7 +16,10 @@ type gen struct {
 	w     *world
 	round int
 	idx   int
-	emit  func(*reqSpec)
+	// only, if set, restricts the per-device products to some devices and
+	// switches the seeded cross cases off.
+	only func(d *devSpec) bool
+	emit func(*reqSpec)
 }
 
 func (g *gen) base(s *srvSpec, d *devSpec, name string) *reqSpec {
@@ -180,6 +183,9 @@ func (g *gen) plain() {
 			continue
 		}
 		for _, d := range w.Devs {
+			if g.only != nil && !g.only(d) {
+				continue
+			}
 			enames, eopts := ednsVariants(d)
 			for ei := range enames {
 				if s.Proto == agd.ProtoDNSCrypt && ei > 1 {
@@ -210,6 +216,9 @@ func (g *gen) plain() {
 	}
 	// Cross cases: identifiers of different devices through different channels.
 	n := g.r.N(400, 6000)
+	if g.only != nil {
+		n = 0
+	}
 	var plains []*srvSpec
 	for _, s := range w.Servers {
 		if s.Proto == agd.ProtoDNS && s.Group == "gp" {
@@ -242,6 +251,9 @@ func (g *gen) tls() {
 			continue
 		}
 		for di, d := range w.Devs {
+			if g.only != nil && !g.only(d) {
+				continue
+			}
 			rnd := g.r.Rand(fmt.Sprintf("sni-%s-%s%s-%d", w.DBKind, s.Group, s.Name, g.round), di)
 			names, snis := sniVariants(rnd, d)
 			for si := range names {
@@ -285,6 +297,9 @@ func (g *gen) doh() {
 			continue
 		}
 		for _, d := range w.Devs {
+			if g.only != nil && !g.only(d) {
+				continue
+			}
 			o := other
 			if d == other {
 				o = g.firstDev(akDoHOnly, stLive)
@@ -332,6 +347,9 @@ func (g *gen) doh() {
 	}
 	// Cross cases: path, user and server name of different devices.
 	n := g.r.N(600, 8000)
+	if g.only != nil {
+		n = 0
+	}
 	s := w.server("gp", "doh")
 	for i := 0; i < n; i++ {
 		rnd := g.r.Rand(fmt.Sprintf("cross-doh-%s-%d", w.DBKind, g.round), i)
